@@ -44,7 +44,7 @@ func (c *fctx) stdMethod(call *ast.CallExpr) (string, ast.Expr) {
 func (c *fctx) isSpecialCall(call *ast.CallExpr) bool {
 	switch c.pkgFunc(call) {
 	case "bytes.NewReader", "bufio.NewReader", "io.ReadFull", "encoding/binary.Write", "sort.Slice",
-		"crypto/rand.Read", "crypto/aes.NewCipher", "crypto/cipher.NewCBCEncrypter", "crypto/cipher.NewCBCDecrypter":
+		"bytes.Equal", "crypto/hmac.Equal", "crypto/rand.Read", "crypto/aes.NewCipher", "crypto/cipher.NewCBCEncrypter", "crypto/cipher.NewCBCDecrypter":
 		return true
 	}
 	m, _ := c.stdMethod(call)
@@ -113,6 +113,9 @@ func (c *fctx) specialCallExpr(call *ast.CallExpr) (string, bool) {
 	switch c.pkgFunc(call) {
 	case "bytes.NewReader", "bufio.NewReader":
 		return c.expr(call.Args[0]), true
+	case "bytes.Equal", "crypto/hmac.Equal":
+		// hmac.Equal is a constant-time comparison: the same value as bytes.Equal
+		return "(" + c.expr(call.Args[0]) + " == " + c.expr(call.Args[1]) + ")", true
 	case "crypto/hmac.New":
 		return "(Go.Mac.new " + c.hashNumber(call.Args[0]) + " " + c.expr(call.Args[1]) + ")", true
 	case "crypto/cipher.NewCBCEncrypter":
